@@ -1,6 +1,8 @@
 package request
 
 import (
+	"strings"
+
 	"github.com/vipnode/vipnode/v2/internal/verifapi"
 )
 
@@ -34,7 +36,7 @@ func VerifC04Hash() {
 	}
 	verifapi.Assert(Verify(sig, method, id, nonce, arg, extra) == nil, "c04.hash.own-signature-verifies")
 	// each single alteration is refused
-	switch verifapi.Choose("alteration", 7) {
+	switch verifapi.Choose("alteration", 8) {
 	case 0:
 		verifapi.Assert(Verify(sig, "vipnode_connect", id, nonce, arg, extra) != nil, "c04.hash.method-is-covered")
 	case 1:
@@ -54,8 +56,55 @@ func VerifC04Hash() {
 		verifapi.Assert(Verify(sig, method, id, nonce, arg) != nil, "c04.hash.parameter-count-is-covered")
 	case 5: // the same request claimed by another identity
 		verifapi.Assert(Verify(sig, method, other, nonce, arg, extra) != nil, "c04.hash.identity-is-covered")
+	case 7: // the same identity spelled differently (0x prefix, upper-case hex): the pool keys its state by the
+		// string as sent, so the signature must cover that string, not just the key it names
+		alias := "0x" + id
+		if style == 0 && verifapi.Bool("uppercase") {
+			alias = strings.ToUpper(id)
+		}
+		if style == 1 {
+			alias = strings.ToUpper(id[:2]) + id[2:] // "0X..." / case of a wallet address
+			if verifapi.Bool("uppercase") {
+				alias = id[:2] + strings.ToUpper(id[2:])
+			}
+		}
+		if alias != id {
+			verifapi.Assert(Verify(sig, method, alias, nonce, arg, extra) != nil, "c04.hash.identity-spelling-is-covered")
+		}
 	case 6: // signed by another key, for this identity
 		sig2, _ := Sign(verifKey(other), method, id, nonce, arg, extra)
 		verifapi.Assert(Verify(sig2, method, id, nonce, arg, extra) != nil, "c04.hash.other-key-refused")
 	}
+}
+
+// VerifC04Concurrent: two correctly signed fresh requests of different
+// identities verified (and one of them signed) at the same time, as a pool
+// serving several connections does: both are accepted, and the verification
+// code shares no unsynchronised state (the implicit no-data-race assertion).
+func VerifC04Concurrent() {
+	ids := []string{verifapi.NodeID(0), verifapi.NodeID(1)}
+	if verifapi.Choose("identitystyle", 2) == 1 {
+		ids = []string{verifapi.Wallet(0), verifapi.Wallet(1)}
+	}
+	method := "vipnode_update"
+	nonces := []int64{verifapi.Int64("nonce0"), verifapi.Int64("nonce1")}
+	sig0, err := Sign(verifKey(ids[0]), method, ids[0], nonces[0], verifArgs{Kind: "geth", Num: 1})
+	if err != nil {
+		verifapi.Unreachable("c04.sign-error")
+		return
+	}
+	done := make(chan error, 2)
+	go func() { done <- Verify(sig0, method, ids[0], nonces[0], verifArgs{Kind: "geth", Num: 1}) }()
+	go func() {
+		// the second identity signs and verifies in the meantime
+		sig1, err := Sign(verifKey(ids[1]), method, ids[1], nonces[1], verifArgs{Kind: "parity", Num: 2})
+		if err != nil {
+			done <- err
+			return
+		}
+		done <- Verify(sig1, method, ids[1], nonces[1], verifArgs{Kind: "parity", Num: 2})
+	}()
+	e1, e2 := <-done, <-done
+	verifapi.Reach("c04.concurrent")
+	verifapi.Assert(e1 == nil && e2 == nil, "c04.concurrent.own-signature-verifies")
 }
